@@ -17,7 +17,7 @@ RULE = ("a case is one history (script, peers, schedule) of one particle, brough
         "pending calls, call sites renamed to unique function names, fold iterators appended to the arguments; schedules: results returned "
         "late, in random subsets, together with new current data, particles delivered in random order, duplicated and re-delivered while "
         "requests are pending, idle runs; about a third of the runs with results also carry results under stale / never issued ids; the "
-        "fixed history of DESIGN 7-11 (stream fold cursor hole) is always included; distinct = distinct (script, schedule) with at least one "
+        "fixed histories of corpus/C05 (stream fold cursor hole of DESIGN 7-11; the par left-window slider defect fixed in /repo) are always included; distinct = distinct (script, schedule) with at least one "
         "service invocation")
 PARTIAL = [
     "C05_full (history level: no call instance is issued twice) is NOT proved: it needs the network invariant (approximation invariant of "
@@ -38,7 +38,7 @@ CHECKS = {"model": "check_case"}
 def gen_cases(rng, tier, escalate=False):
     mult = 4 if escalate else 1
     q = tier == "quick"
-    cases = [ids_common.hole_case(["C05"])]
+    cases = []          # the fixed histories (stream fold cursor hole, par left-window slider) are in corpus/C05
     for _ in range((24 if q else 240) * mult):
         cases.append(ids_common.generated_case(rng, tier, ["C05"], peers=3, streams=rng.random() < 0.6, p_extra=0.3, probe_max=3))
     for _ in range((6 if q else 60) * mult):
